@@ -58,6 +58,7 @@ int main(int argc, char **argv) {
     std::string line;
     while (std::getline(std::cin, line)) {
         std::vector<std::string> f = split_ws(line);
+        case_begin(f.empty() ? std::string("?") : f[0]);
         if (f.size() < 4) { printf("%s BAD\n", f.empty() ? "?" : f[0].c_str()); continue; }
         const std::string &id = f[0], &op = f[1];
         int enc = atoi(f[2].c_str());
@@ -106,6 +107,7 @@ int main(int argc, char **argv) {
             free(k1); free(k2); free(k3);
         } else printf("%s BAD\n", id.c_str());
         fflush(stdout);
+        case_end();
     }
     if (face) gr_face_destroy(face);
     return 0;
